@@ -39,6 +39,8 @@ def run(M, rep, tier, only=None):
                   technique="attribute chains collected from the AST, existence probed in the repository's interpreter")
     R2 = rep.rule("C20.R2", "destination-name refusal (and kind refusal) precede the HDF5 copy", floor=8,
                   technique="must-precede on all abstract paths (event order, receiver/key identity)")
+    R7 = rep.rule("C20.R7", "nothing is written to the copy (or its source) after the HDF5 object copy", floor=8,
+                  technique="event absence after the copy event on all copying paths")
     R3 = rep.rule("C20.R3", "id policy and renaming inside the hdf5 layer's copy", floor=3, technique="raw h5py events under the keep_id decision")
     R4 = rep.rule("C20.R4", "the copy is addressed by its effective new name afterwards", floor=8,
                   technique="key provenance of every lookup after the copy on all abstract paths")
@@ -70,7 +72,7 @@ def run(M, rep, tier, only=None):
             paths = ctx.paths(f, cn, max_paths=30000)
         except Budget:
             raise AnalysisError("C20: too many abstract paths in %s" % key)
-        bad2 = bad4 = bad5 = bad6 = None
+        bad2 = bad4 = bad5 = bad6 = bad7 = None
         ncopy = 0
         kind_ref = 0
         dup_ref = 0
@@ -141,6 +143,12 @@ def run(M, rep, tier, only=None):
                                 "supplied new name or kept ids this finds the original (or nothing)" % (show(e.key.t), show(nm.t)))
             if p.normal and not looked:
                 bad4 = bad4 or (p, "the returned entity is not looked up in the destination under the copy's name %s" % show(nm.t))
+            # R7: the copy is what HDF5 copied: nothing is written to it (or to its source) afterwards
+            for e in p.events:
+                if e.idx > root.idx and e.kind == "layer" and e.op != "H5Group.copy" and ctx.fx.is_observable_write(e) and \
+                        not any(q.endswith("Section.create_property") for q in e.stack):
+                    bad7 = (p, "after the HDF5 copy %s writes %s:%s: the copy then differs from its source in more than name and id "
+                            "(an attribute replaced by an argument's default, a link re-pointed)" % (key, e.op.split(".")[-1], ctx.fx.key(e)))
         site = f.file + ":%d" % f.node.lineno
         rep.check(R2, key, bad2 is None and ncopy > 0 and kind_ref > 0 and dup_ref > 0, bad2[1] if bad2 else
                   "required mechanism not found: %d copying path(s), %d wrong-kind refusal(s), %d existing-name refusal(s)" % (ncopy, kind_ref, dup_ref),
@@ -149,6 +157,8 @@ def run(M, rep, tier, only=None):
                   detail=describe_path(bad4[0], 60) if bad4 else None)
         rep.check(R5, key, bad5 is None and ncopy > 0, bad5[1] if bad5 else "no copying path", site=site,
                   detail=describe_path(bad5[0]) if bad5 else None)
+        rep.check(R7, key, bad7 is None and ncopy > 0, bad7[1] if bad7 else "no copying path", site=site,
+                  detail=describe_path(bad7[0], 60) if bad7 else None)
         if name == "copy_section":
             rep.check(R6, key, bad6 is None and ncopy > 0, bad6[1] if bad6 else "no copying path", site=site,
                       detail=describe_path(bad6[0]) if bad6 else None)
